@@ -736,17 +736,29 @@ class Lexer(object):
     )
     identifier = identifier_start + identifier_part
 
-    getprop = r'get' + r'(?=\s' + identifier + r')'
+    # get and set are only keywords at the start of a property assignment
+    # of an object initialiser (section 11.1.5), where a property name
+    # (IdentifierName, StringLiteral or NumericLiteral) follows them.
+    property_name_start = r'(?=\s+(?:' + identifier + r'''|['"0-9.]))'''
+
+    def _accessor_or_identifier(self, token):
+        if (self.cur_token is None or
+                self.cur_token.type not in ('LBRACE', 'COMMA')):
+            # anywhere else they are ordinary identifiers
+            token.type = 'ID'
+        return token
+
+    getprop = r'get' + property_name_start
 
     @ply.lex.TOKEN(getprop)
     def t_GETPROP(self, token):
-        return token
+        return self._accessor_or_identifier(token)
 
-    setprop = r'set' + r'(?=\s' + identifier + r')'
+    setprop = r'set' + property_name_start
 
     @ply.lex.TOKEN(setprop)
     def t_SETPROP(self, token):
-        return token
+        return self._accessor_or_identifier(token)
 
     @ply.lex.TOKEN(identifier)
     def t_ID(self, token):
